@@ -238,3 +238,4 @@
 (assert (forall ((s Str) (a Int) (b Int)) (! (and (<= 0 (nlcount s a b)) (=> (<= a b) (<= (nlcount s a b) (- b a)))) :pattern ((nlcount s a b)))))
 (assert (forall ((s Str) (a Int) (b Int)) (! (=> (forall ((k Int)) (! (=> (and (<= a k) (< k b)) (not (= (at s k) 10))) :pattern ((at s k)))) (= (nlcount s a b) 0)) :pattern ((nlcount s a b)))))
 (assert (forall ((s Str) (a Int) (b Int) (c Int)) (! (=> (and (<= a b) (<= b c)) (= (nlcount s a c) (+ (nlcount s a b) (nlcount s b c)))) :pattern ((nlcount s a b) (nlcount s a c)))))
+(assert (forall ((s Str) (a Int) (b Int) (m Int)) (! (=> (and (<= 0 a) (<= a m) (< m b) (<= b (slen s))) (= (at (sub s a b) (- m a)) (at s m))) :pattern ((sub s a b) (at s m)))))
